@@ -103,6 +103,10 @@ def convert(t, var_names, assms, to_real, ctx):
                 body = z3.And(z3_v >= 0, body) if ctx is None else z3.And(z3_v >= 0, body, ctx)
             return z3.Exists(z3_v, body)
         elif t.is_number():
+            if t.get_type() == RealType:
+                # Python integers would get sort Int (on which / is integer division),
+                # and arithmetic on them would be evaluated by Python (/ gives a float).
+                return z3.RealVal(t.dest_number(), ctx)
             return t.dest_number()
         elif t.is_implies():
             return z3.Implies(rec(t.arg1), rec(t.arg))
